@@ -61,8 +61,8 @@ Inductive eclass := EBounds    (* message contains "bounds": classified IndexOut
    ANamed 1-D write: yes - executors/assignments/simple_assignment.cpp:798, operators/assignment.cpp:152
    ANamed N-D      : yes - managers/arrays/manager.cpp:1343 / 1461 (int_indices)
    AMember 1-D     : yes - access/array.cpp:216, simple_assignment.cpp:662, executors/statement_executor.cpp:440
-   AMember 2-D read: no  - managers/structs/operations.cpp:760 (int64 compare)
-   AMember 2-D write: yes - manager.cpp:1461
+   AMember N-D read: no  - managers/structs/operations.cpp:760 (int64 compare; any rank: access/array.cpp:71 walks the subscript chain)
+   AMember N-D write: yes - manager.cpp:1461
    (before ff8053c these sites truncated with static_cast<int>) *)
 Definition narrows (ak : akind) (rank1 : bool) (m : rw) : bool :=
   match ak, rank1, m with
@@ -91,14 +91,6 @@ Definition resolve (ak : akind) (m : rw) (dims : list Z) (stor : Z) (idxs : list
       | _ => inr EOther
       end
   | _ =>
-      match ak, m, dims with
-      | AMember, Rd, _ :: _ :: _ :: _ =>
-          (* access/array.cpp:71-73 recognises obj.member[i][j] only when exactly two subscripts sit on
-             the member access; a read with three or more falls through to the generic path whose
-             flat test against an empty value vector always fails. (Writes are collected for any
-             rank by simple_assignment.cpp:687-715 and succeed.) *)
-          inr EBounds
-      | _, _, _ =>
           match conv_all (narrows ak false m) idxs with
           | None => inr EBounds                                    (* index_to_int, before the rank test *)
           | Some idxs' =>
@@ -108,7 +100,6 @@ Definition resolve (ak : akind) (m : rw) (dims : list Z) (stor : Z) (idxs : list
               | None => inr EBounds
               end
           end
-      end
   end.
 
 (* ---------- pointers into an array (core/pointer_metadata.cpp, operators/binary_unary.cpp:273) ----------
@@ -149,9 +140,8 @@ Fixpoint upd_nat (k : nat) (v : Z) (l : list Z) : list Z :=
 Definition upd (k v : Z) (l : list Z) : list Z := upd_nat (Z.to_nat k) v l.
 
 Definition zlen (l : list Z) : Z := Z.of_nat (List.length l).
-(* size of array_values: the 1-D vector; N-D arrays keep their data in multidim_array_values and
-   leave array_values empty, which is what p[k] tests against (array.cpp:447, interpreter.cpp:1705 ff.) *)
-Definition av_size (dims : list Z) : Z := match dims with [n] => n | _ => 0 end.
+(* p[k] tests against the vector that holds the cells: multidim_array_values for N-D arrays, array_values
+   otherwise (access/array.cpp:451, core/interpreter.cpp:1783) - one cell per tuple either way *)
 
 Definition step (ak : akind) (dims : list Z) (base : Z) (s : st) (o : op) : st * res :=
   let n := size dims in
@@ -215,7 +205,7 @@ Definition step (ak : akind) (dims : list Z) (base : Z) (s : st) (o : op) : st *
   | OPtrRead k =>
       match ptr s with
       | Some e => let eff := e + k in                             (* meta->element_index + index, int64 *)
-                  if (eff <? 0) || (av_size dims <=? eff) then (s, RErr EBounds)
+                  if (eff <? 0) || (n <=? eff) then (s, RErr EBounds)
                   else (s, RVal (getc eff (cells s)))
       | None => (s, RErr EOther)
       end
@@ -225,7 +215,7 @@ Definition step (ak : akind) (dims : list Z) (base : Z) (s : st) (o : op) : st *
                   | None => (s, RErr EBounds)
                   | Some k' =>
                       let eff := e + k' in
-                      if (eff <? 0) || (av_size dims <=? eff) then (s, RErr EBounds)
+                      if (eff <? 0) || (n <=? eff) then (s, RErr EBounds)
                       else (mkst (upd eff v (cells s)) (ptr s), RUnit)
                   end
       | None => (s, RErr EOther)
